@@ -93,7 +93,7 @@ def _one_parsed(args):
     os.environ["HOME"] = scratch
     import travparsed
     rng = random.Random(seed * 7000003 + idx)
-    spec = travparsed.gen_parsed_spec(rng)
+    spec = travparsed.gen_parsed_spec(rng, idx)
     return _run_spec(spec, monitors, (seed, idx, "parsed"))
 
 
